@@ -103,6 +103,18 @@ func (e1Engine) Gen(prop string, seed int64, tier string) *Plan {
 			p.Steps = append(p.Steps, Step{K: "schema", A: r.IntN(n), B: r.IntN(3), C: r.IntN(4)})
 		}
 	}
+	if prop == "C19" {
+		// index changes through a collection handle that was obtained before the schema changed (own stream)
+		rs := newRng(seed, 191)
+		var steps []Step
+		for _, st := range p.Steps {
+			steps = append(steps, st)
+			if st.K == "schema" && chance(rs, 25) {
+				steps = append(steps, Step{K: "staleindex", A: st.A})
+			}
+		}
+		p.Steps = steps
+	}
 	if p.Cfg["col"] == 1 {
 		// branchable collection: collection-level commits are delivered too (own stream of choices, so that
 		// the plans of the other configurations stay what they were)
@@ -183,6 +195,8 @@ type e1Run struct {
 	nodeActive []string
 	nodeNext   []int
 	schemaOps  int
+	staleCols  []client.Collection // per node: the handle of the collection as obtained right after the schema was added
+	staleIx    []bool
 	// C11
 	secretPats []secretPat
 	secretN    int
@@ -267,6 +281,8 @@ func (r *e1Run) run() {
 			return
 		}
 	}
+	r.staleCols = make([]client.Collection, n)
+	r.staleIx = make([]bool, n)
 	r.nodeKnown = make([]map[string]string, n)
 	r.nodeActive = make([]string, n)
 	r.nodeNext = make([]int, n)
@@ -276,6 +292,7 @@ func (r *e1Run) run() {
 			for _, c := range cs {
 				if c.Name() == "User" {
 					r.nodeKnown[i][""] = c.Version().VersionID
+					r.staleCols[i] = c
 				}
 			}
 		}
@@ -356,6 +373,8 @@ func (r *e1Run) exec(i int, s Step) {
 		r.checkConverged(i)
 	case "schema":
 		r.doSchema(i, mod(s.A, n), s.B, s.C)
+	case "staleindex":
+		r.doStaleIndex(i, mod(s.A, n))
 	}
 }
 
